@@ -138,6 +138,59 @@ fn neighbourhood(full: bool) -> Vec<Vec<u8>> {
     out
 }
 
+/// the complete TWO-substitution neighbourhood of a template (P2SH, P2WPKH), enumerated lazily - a case names two
+/// positions, the check walks all 65 536 value pairs
+#[derive(Clone, Debug, Serialize, Deserialize)]
+struct PairCase {
+    coin: Coin,
+    #[serde(with = "vpmodel::spec::hexser")]
+    template: Vec<u8>,
+    p1: usize,
+    p2: usize,
+}
+
+fn pair_cases(coins: &[Coin], all_positions: bool) -> Vec<PairCase> {
+    let h20: Vec<u8> = (0..20u8).map(|i| i.wrapping_mul(37).wrapping_add(0x11)).collect();
+    let mut sh = vec![0xa9, 0x14];
+    sh.extend(&h20);
+    sh.push(0x87);
+    let mut wpkh = vec![0x00, 0x14];
+    wpkh.extend(&h20);
+    let mut v = Vec::new();
+    for c in coins {
+        for t in [&sh, &wpkh] {
+            // positions of the opcodes / lengths and two payload bytes (payload bytes are interchangeable)
+            let pos: Vec<usize> = (0..t.len()).filter(|i| all_positions || *i < 4 || *i >= t.len() - 2).collect();
+            for (a, p1) in pos.iter().enumerate() {
+                for p2 in pos.iter().skip(a + 1) {
+                    v.push(PairCase { coin: *c, template: t.clone(), p1: *p1, p2: *p2 });
+                }
+            }
+        }
+    }
+    v
+}
+
+fn check_pair(c: &PairCase, prop: &str) -> Verdict {
+    let mut scripts = Vec::with_capacity(65_536);
+    for a in 0..=255u8 {
+        for b in 0..=255u8 {
+            let mut s = c.template.clone();
+            s[c.p1] = a;
+            s[c.p2] = b;
+            scripts.push(s);
+        }
+    }
+    match check_script_batch(&ScriptBatch { coin: c.coin, scripts }, prop) {
+        Verdict::Pass(mut p) => {
+            p.sample = None;
+            p.extra_keys.truncate(8);
+            Verdict::Pass(p)
+        }
+        other => other,
+    }
+}
+
 fn neighbourhood_batches(coins: &[Coin], full: bool) -> Vec<ScriptBatch> {
     let all = neighbourhood(full);
     let mut v = Vec::new();
@@ -168,17 +221,22 @@ fn run_property(id: &str, eng: &Engine, a: &Args) -> (&'static str, Vec<&'static
     if !nb_coins.is_empty() {
         let idc = id.to_string();
         eng.enumerate("short-scripts-and-template-neighbourhoods", neighbourhood_batches(&nb_coins, !q), move |b| check_script_batch(b, &idc));
+        if id != "C16" {
+            // quick: both substituted positions among the opcodes, lengths and the first / last payload bytes; thorough: all pairs
+            let idc = id.to_string();
+            eng.enumerate("two-substitution-neighbourhoods", pair_cases(&nb_coins, !q), move |c| check_pair(c, &idc));
+        }
     }
     match id {
         "C05" => {
             let n = if q { 2400 } else { 80_000 };
             eng.explore("per-script", scaled(n, a), move || batch(vec![Coin::Bitcoin, Coin::Testnet3], gen::any_script(tier), 256), |b| check_script_batch(b, "C05"));
-            ("E2: batches of up to 256 scripts from the full grammar evaluated in-process by eval_from_bytes(bytes, 0x00|0x6f); each verdict (type, address, OP_RETURN payload) compared with the three-valued reference classifier and the address round-trip decoder. Non-trivial script = template / near miss / witness lookalike; distinct by script bytes. Bounded-exhaustive part 'short-scripts-and-template-neighbourhoods': every script of at most two bytes and the complete one-edit neighbourhood (every one-byte substitution, insertion, truncation) of 25 templates (canonical forms, pay-to-anchor, a burn output) on each coin of the property.", vec![])
+            ("E2: batches of up to 256 scripts from the full grammar evaluated in-process by eval_from_bytes(bytes, 0x00|0x6f); each verdict (type, address, OP_RETURN payload) compared with the three-valued reference classifier and the address round-trip decoder. Non-trivial script = template / near miss / witness lookalike; distinct by script bytes. Bounded-exhaustive part 'short-scripts-and-template-neighbourhoods': every script of at most two bytes and the complete one-edit neighbourhood (every one-byte substitution, insertion, truncation) of 25 templates (canonical forms, pay-to-anchor, a burn output) on each coin of the property. Part 'two-substitution-neighbourhoods': every pair of byte values at two positions of the P2SH and P2WPKH templates (quick: positions among opcodes, lengths, first / last payload bytes; thorough: all position pairs).", vec![])
         }
         "C06" => {
             let n = if q { 2400 } else { 80_000 };
             eng.explore("per-script", scaled(n, a), move || batch(FORK_COINS.to_vec(), prop_oneof![4 => gen::any_script(tier), 3 => gen::template_any_push(tier), 2 => gen::mutated_template(tier)].boxed(), 256), |b| check_script_batch(b, "C06"));
-            ("E2: batches of up to 256 scripts evaluated in-process with each fork coin's version byte; type, address and OP_RETURN payload compared with the strict reference tokeniser/template model. Non-trivial = contains PUSHDATA/NOP or is a template; distinct by script bytes. Bounded-exhaustive part 'short-scripts-and-template-neighbourhoods': every script of at most two bytes and the complete one-edit neighbourhood (every one-byte substitution, insertion, truncation) of 25 templates (canonical forms, pay-to-anchor, a burn output) on each coin of the property.", vec![])
+            ("E2: batches of up to 256 scripts evaluated in-process with each fork coin's version byte; type, address and OP_RETURN payload compared with the strict reference tokeniser/template model. Non-trivial = contains PUSHDATA/NOP or is a template; distinct by script bytes. Bounded-exhaustive part 'short-scripts-and-template-neighbourhoods': every script of at most two bytes and the complete one-edit neighbourhood (every one-byte substitution, insertion, truncation) of 25 templates (canonical forms, pay-to-anchor, a burn output) on each coin of the property. Part 'two-substitution-neighbourhoods': every pair of byte values at two positions of the P2SH and P2WPKH templates (quick: positions among opcodes, lengths, first / last payload bytes; thorough: all position pairs).", vec![])
         }
         "C16" => {
             let n = if q { 1600 } else { 20_000 };
@@ -188,7 +246,7 @@ fn run_property(id: &str, eng: &Engine, a: &Args) -> (&'static str, Vec<&'static
         "C14" => {
             let n = if q { 4000 } else { 200_000 };
             eng.explore("totality", scaled(n, a), move || batch(ALL_COINS.to_vec(), prop_oneof![3 => gen::any_script(tier), 2 => gen::many_pushes(tier), 2 => gen::token_script(tier), 1 => gen::raw_script(tier), 1 => gen::leading_opcode(tier)].boxed(), 256), |b| check_script_batch(b, "C14"));
-            ("E2: catch_unwind around eval_from_bytes for batches of hostile scripts (truncated pushes, huge PUSHDATA4, all leading opcodes, hundreds to thousands of pushes, raw bytes) on all 8 coins, debug assertions and overflow checks on; any panic or Error(..) verdict is a violation. Bounded-exhaustive part 'short-scripts-and-template-neighbourhoods': every script of at most two bytes and the complete one-edit neighbourhood (every one-byte substitution, insertion, truncation) of 25 templates (canonical forms, pay-to-anchor, a burn output) on each coin of the property.", vec![])
+            ("E2: catch_unwind around eval_from_bytes for batches of hostile scripts (truncated pushes, huge PUSHDATA4, all leading opcodes, hundreds to thousands of pushes, raw bytes) on all 8 coins, debug assertions and overflow checks on; any panic or Error(..) verdict is a violation. Bounded-exhaustive part 'short-scripts-and-template-neighbourhoods': every script of at most two bytes and the complete one-edit neighbourhood (every one-byte substitution, insertion, truncation) of 25 templates (canonical forms, pay-to-anchor, a burn output) on each coin of the property. Part 'two-substitution-neighbourhoods': every pair of byte values at two positions of the P2SH and P2WPKH templates (quick: positions among opcodes, lengths, first / last payload bytes; thorough: all position pairs).", vec![])
         }
         "C01" => {
             let n = if q { 600 } else { 20_000 };
@@ -237,6 +295,7 @@ fn run_property(id: &str, eng: &Engine, a: &Args) -> (&'static str, Vec<&'static
 
 fn replay(id: &str, part: &str, case: serde_json::Value) -> Option<Verdict> {
     Some(match (id, part) {
+        ("C05", "two-substitution-neighbourhoods") | ("C06", "two-substitution-neighbourhoods") | ("C14", "two-substitution-neighbourhoods") => check_pair(&serde_json::from_value(case).ok()?, id),
         ("C05", _) | ("C06", _) | ("C16", _) | ("C14", _) => check_script_batch(&serde_json::from_value(case).ok()?, id),
         ("C01", _) | ("C12", _) => check_block_case(&serde_json::from_value(case).ok()?),
         ("C09", _) => check_merkle(&serde_json::from_value(case).ok()?),
